@@ -49,7 +49,7 @@ from pathlib import Path
 from src.core.base import BaseLintContext, BaseLintRule
 from src.core.registry import RuleRegistry
 from src.core.types import Violation
-from src.linter_config.ignore import get_ignore_parser
+from src.linter_config.ignore import clear_ignore_parser_cache, get_ignore_parser
 from src.linter_config.loader import LinterConfigLoader
 from src.linter_config.pattern_utils import matches_ignore_pattern
 
@@ -286,6 +286,9 @@ class Orchestrator:  # thailint: ignore[srp]
         self.project_root = project_root or Path.cwd()
         self.registry = RuleRegistry()
         self.config_loader = LinterConfigLoader()
+        # A new orchestrator reads the project's ignore list anew (an earlier object in this process
+        # may have cached a list that has changed since)
+        clear_ignore_parser_cache()
         self.ignore_parser = get_ignore_parser(self.project_root)
 
         # Performance optimization: Defer rule discovery until first file is linted
